@@ -10,7 +10,7 @@
 (* deliver any chunking, answer Pending before any read (the future may    *)
 (* then be dropped), end the stream, or fail with any kind, at ANY point.  *)
 (***************************************************************************)
-EXTENDS PollDecoder, SmallPackets, TLC
+EXTENDS PollDecoder, SmallPackets, TLC, Json
 
 Valid == {Encode(Fam, p) : p \in SmallOf(Fam)}
 WideBody == [i \in 1..130 |-> IF i = 1 THEN 0 ELSE IF i = 2 THEN 1 ELSE IF i = 3 THEN 97 ELSE IF i = 4 /\ Fam = "v5" THEN 0 ELSE 7]
@@ -28,6 +28,11 @@ MCKinds == {"ConnectionReset", "TimedOut"}
 MCStreamsSmall == {<<64, 2, 0, 1>>, <<192, 0>>}
 MCStreamsMed == Valid \cup Malformed
 MCStreamsWide == {Frame(48, WideBody)}
+
+\* ---- GEN: the stream set of this model as JSON vectors; the harness runs the real poll decoder on each of them
+\* under every schedule (short streams) / many seeded schedules (long ones), and the runs are trace-validated
+CONSTANT EmitStreams
+ASSUME EmitStreams => \A s \in MCStreams : PrintT(<<"VEC", ToJson([fam |-> Fam, bytes |-> s])>>)
 
 \* ---- vacuity guard: every interesting kind of end state and step is reached (run with -workers 1)
 ASSUME \A i \in 11..22 : TLCSet(i, FALSE)
